@@ -121,6 +121,7 @@ def replay(pid, part, r):
 _T = list(sgrun.TARGETS)
 check('C13',
       title='Schema compiler output implements the schema',
+      build_failure_is_violation=dict(pattern=r'gen/(utest|fix44)|f8c/f8c', clause='output-compiles', mode='generated-code-of-stock-schema-does-not-build'),
       level='translation_validation', engine='schemagen+msggen',
       technique='complete enumeration of a bounded grammar of schema programs; each is compiled by the freshly built f8c and by g++, the generated metadata is read '
                 'back through F8MetaCntx / FieldTraits and compared with an independent model of the same XML, and the C01/C02 codec oracles run over the message lattice of the schema',
